@@ -69,3 +69,17 @@ Theorem limits_are_the_sources :
   src_max_line_number = 65529 /\ MAX_LINE_LEN = src_max_line_len /\ MAX_POOL = src_max_pool
   /\ forall r, stack_is_full r = (src_max_pool - src_full_headroom <? r_slen r).
 Proof. repeat split; reflexivity. Qed.
+
+(* the operator merges of the post passes: which two operator characters become which operator -- with blanks between
+   them (collapse_triples) and without (collapse_doubles) -- are the source's if-chains, read arm by arm *)
+Definition operator_eq_dec (a b : operator) : {a = b} + {a <> b}.
+Proof. decide equality. Defined.
+Fixpoint assoc_merge (a c : operator) (l : list (operator * operator * operator)) : option operator :=
+  match l with
+  | [] => None
+  | (x, y, z) :: r => if operator_eq_dec a x then (if operator_eq_dec c y then Some z else assoc_merge a c r) else assoc_merge a c r
+  end.
+Theorem merges_are_the_sources : forall a c n,
+  triple_at (TOp a) (TWs n) (TOp c) = option_map TOp (assoc_merge a c src_triple_merges)
+  /\ double_at (TOp a) (TOp c) = option_map TOp (assoc_merge a c src_double_merges).
+Proof. intros a c n. destruct a; destruct c; split; reflexivity. Qed.
